@@ -26,7 +26,7 @@ def _all_slices(sl) -> bool:
     return all(isinstance(i, ast.Slice) for i in items)
 
 
-PASS_METHODS = {"contiguous", "clone", "long", "detach", "to", "int", "unsqueeze", "expand", "view", "squeeze",
+PASS_METHODS = {"contiguous", "clone", "long", "detach", "to", "int", "float", "unsqueeze", "expand", "view", "squeeze",
                 "expand_as", "reshape", "flatten"}
 
 
@@ -110,8 +110,11 @@ class Extractor:
             return ("neg", self.term(e.operand, depth + 1))
         if isinstance(e, ast.BinOp) and isinstance(e.op, (ast.Add, ast.Sub)):
             return ("add" if isinstance(e.op, ast.Add) else "sub", self.term(e.left, depth + 1), self.term(e.right, depth + 1))
-        if isinstance(e, ast.BinOp) and isinstance(e.op, (ast.Mult, ast.FloorDiv)):
-            return ("mul" if isinstance(e.op, ast.Mult) else "floordiv", self.term(e.left, depth + 1), self.term(e.right, depth + 1))
+        if isinstance(e, ast.BinOp) and isinstance(e.op, (ast.Mult, ast.FloorDiv, ast.Div)):
+            k = {ast.Mult: "mul", ast.FloorDiv: "floordiv", ast.Div: "div"}[type(e.op)]
+            return (k, self.term(e.left, depth + 1), self.term(e.right, depth + 1))
+        if isinstance(e, ast.Constant) and isinstance(e.value, float) and e.value == int(e.value):
+            return int(e.value)
         if isinstance(e, ast.Call) and call_name(e) == "torch.arange" and self.index_leaf is not None:
             pos = list(e.args)
             if len(pos) == 1:
@@ -190,6 +193,9 @@ def ev(t, env: Dict[str, int]) -> int:
         return ev(t[1], env) * ev(t[2], env)
     if k == "floordiv":
         return ev(t[1], env) // ev(t[2], env)
+    if k == "div":
+        from fractions import Fraction
+        return Fraction(ev(t[1], env)) / Fraction(ev(t[2], env))
     if k == "max":
         return max(ev(t[1], env), ev(t[2], env))
     if k == "min":
@@ -221,8 +227,8 @@ def show(t) -> str:
         return f"-{show(t[1])}"
     if k in ("add", "sub"):
         return f"({show(t[1])} {'+' if k == 'add' else '-'} {show(t[2])})"
-    if k in ("mul", "floordiv"):
-        return f"({show(t[1])} {'*' if k == 'mul' else '//'} {show(t[2])})"
+    if k in ("mul", "floordiv", "div"):
+        return f"({show(t[1])} {dict(mul='*', floordiv='//', div='/')[k]} {show(t[2])})"
     if k in ("max", "min"):
         return f"{k}({show(t[1])}, {show(t[2])})"
     if k == "zero_if":
